@@ -41,7 +41,7 @@ def SMsg.Valid : SMsg → Prop
   | .songSelect n => n < 128
   | _ => True
 
-instance (m : SMsg) : Decidable m.Valid := by cases m <;> unfold SMsg.Valid <;> infer_instance
+instance SMsg.decValid (m : SMsg) : Decidable m.Valid := by cases m <;> unfold SMsg.Valid <;> infer_instance
 
 /-- `StructuredShortMessage::from_bytes_unchecked` -/
 def SMsg.ofBytesUnchecked (b : Bytes) : Res SMsg := do
